@@ -36,6 +36,9 @@ type Cfg struct {
 	// StateProbes wraps constructs in sp("n","b") / sp("n","a") calls that snapshot the interpreter state
 	// (verif hook) before and after; the states must be equal.
 	StateProbes bool
+	// IssetSwallow: isset(exec("/swf.jet", ctx).zzq) / isset(includeIfExists("/swf.jet", ctx).zzq) where /swf.jet fails at run time:
+	// isset swallows the failure and everything (context, scopes, content) is as before.
+	IssetSwallow bool
 }
 
 type blockInfo struct {
@@ -223,7 +226,17 @@ func (g *gen) stmt(depth int) []Node {
 func (g *gen) stmt0(depth int) []Node {
 	c := g.cfg
 	for tries := 0; tries < 20; tries++ {
-		switch k := g.r.Intn(24); {
+		switch k := g.r.Intn(25); {
+		case k == 24:
+			if !c.IssetSwallow || g.r.Intn(2) == 0 {
+				continue
+			}
+			g.feat["isset-swallows-failing-exec"] = true
+			var e Expr = Exec{Name: "/swf.jet", Ctx: g.ctxExpr()}
+			if c.IncludeIfExists && g.r.Intn(2) == 0 {
+				e = IncludeIfExists{Name: "/swf.jet", Ctx: g.ctxExpr()}
+			}
+			return []Node{&Text{S: "<sw:"}, &Print{E: IssetChain{E: e}}, &Text{S: ">"}}
 		case k < 3:
 			return []Node{g.text()}
 		case k < 7:
